@@ -355,7 +355,7 @@ static std::string obs_routes(TasmanianSparseGrid const &g, unsigned seed){
                 bool e_q = true, e_ih = true;
                 for(int k=0; k<outs; k++){ double sum = 0.0, sc = 0.0; for(int p=0; p<nl; p++){ double t = qw[(size_t) p] * v[(size_t) p * outs + k]; sum += t; sc += std::fabs(t); } e_q = e_q && sclose(sum, q[(size_t) k], sc); }
                 add("integrate_qweights", e_q);
-                if (!g.isGlobal() && !g.isFourier()){
+                if (!g.isGlobal()){     // Fourier: the first nl strips are the real parts, only the constant mode has a non-zero integral
                     std::vector<double> ih((size_t) np); g.integrateHierarchicalFunctions(ih.data());
                     for(int k=0; k<outs; k++){ double sum = 0.0, sc = 0.0; for(int p=0; p<nl; p++){ double t = ih[(size_t) p] * c[(size_t) p * outs + k]; sum += t; sc += std::fabs(t); } e_ih = e_ih && sclose(sum, q[(size_t) k], sc); }
                     add("integrate_hier", e_ih);
@@ -786,10 +786,12 @@ static std::string obs_twin(TasmanianSparseGrid const &g, unsigned seed){
         auto wt = g.getQuadratureWeights(), wc = c.getQuadratureWeights();
         bool ws = (wt.size() == wc.size()); for(size_t i=0; ws && i<wt.size(); i++) ws = std::fabs(wt[i] - scale * wc[i]) <= 1.0e-11 * (std::fabs(wt[i]) + std::fabs(scale * wc[i])) + 1.0e-14 * scale;
         add("weights_scale", jbool(ws));
-        if (!g.isGlobal() && !g.isFourier()){
+        if (!g.isGlobal()){
             std::vector<double> it((size_t) np), ic((size_t) np); g.integrateHierarchicalFunctions(it.data()); c.integrateHierarchicalFunctions(ic.data());
             bool is = true; for(int i=0; i<np; i++) is = is && std::fabs(it[(size_t) i] - scale * ic[(size_t) i]) <= 1.0e-11 * (std::fabs(it[(size_t) i]) + std::fabs(scale * ic[(size_t) i])) + 1.0e-14 * scale;
             add("basis_integrals_scale", jbool(is));
+        }
+        if (!g.isGlobal() && !g.isFourier()){
             // supports scale by the Jacobian of the map
             auto st = g.getHierarchicalSupport(), sc = c.getHierarchicalSupport();
             bool ss = (st.size() == sc.size());
@@ -1360,7 +1362,9 @@ int main(int argc, char **argv){
         bool firsto = true;
         auto O = [&](std::string s){ if (!firsto) obs += ","; firsto = false; obs += s; };
         try{
-            if (obs_mask & OBS_NODAL) O(obs_nodal(g));
+            // C09 judges the surrogate after the last delivery only: with VERIF_NODAL_AT_FINISH the nodal observation is not taken
+            // while a construction is active (intermediate states belong to C01)
+            if ((obs_mask & OBS_NODAL) && !(getenv("VERIF_NODAL_AT_FINISH") != nullptr && g.isUsingConstruction())) O(obs_nodal(g));
             if (obs_mask & OBS_ROUTES) O(obs_routes(g, (unsigned) (scen * 131 + step)));
             if (obs_mask & OBS_RT) O(obs_roundtrip(g, (unsigned) (scen * 137 + step)));
             if (obs_mask & OBS_EXACT) O(obs_exact(g, (unsigned) (scen * 139 + step)));
